@@ -120,18 +120,31 @@ fn v(rule: &'static str, sig: impl Into<String>, detail: impl Into<String>) -> V
     Violation::new("C20", rule, sig, detail)
 }
 
+/// The memo key: equality by value, but every key hashes alike. `Hash` only has to be consistent with `Eq`, it need
+/// not be injective, so the table must tell colliding keys apart by `Eq` (after seed C20-f, which keyed the table by
+/// the hash).
+#[derive(Clone, PartialEq, Eq, Debug)]
+struct MKey(u8);
+impl std::hash::Hash for MKey {
+    fn hash<H: std::hash::Hasher>(&self, state: &mut H) {
+        0u8.hash(state);
+    }
+}
+
 fn build(prog: &MemoProg) -> Real {
     let state = IncrState::new();
     let base = state.var(0u32);
     let bvars: Vec<Var<u8>> = (0..prog.n_vars()).map(|_| state.var(0u8)).collect();
     let base_w = base.watch();
-    let underlying = move |k: u8| {
+    let underlying = move |k: MKey| {
+        let k = k.0;
         let n = base_w.map(move |x| x * 10 + k as u32);
         log(Ev::Call { k, id: n.verif_id(), weak: n.weak() });
         n
     };
     // called at top level: its nodes belong to the top scope
-    let memo = state.weak_memoize_fn(underlying);
+    let mut memo_k = state.weak_memoize_fn(underlying);
+    let memo = move |k: u8| memo_k(MKey(k));
     let mut binds = vec![];
     for i in 0..prog.n_binds() {
         let vs = prog.vars_of(i);
